@@ -6,10 +6,12 @@ import common, coqrun, proofcheck, history, solverkit
 PID = "C12"
 CONST = 50.0
 
-def gen_system(rng, torch, torchtt):
+def gen_system(rng, torch, torchtt, N=None):
     d = rng.choice([2, 2, 3, 3, 4, 5])
-    N = [rng.choice([2, 3, 4, 5, 6, 8, 12]) for _ in range(d)]
-    while int(np.prod(N)) > 3000: N[N.index(max(N))] = 2
+    N_ = [rng.choice([2, 3, 4, 5, 6, 8, 12]) for _ in range(d)]
+    while int(np.prod(N_)) > 3000: N_[N_.index(max(N_))] = 2
+    if N is None: N = N_
+    else: d = len(N)
     kind = rng.choice(["spd", "diagdom", "laplace"])
     dt = torch.float64
     I = torchtt.eye(N, dtype=dt)
@@ -259,7 +261,7 @@ def run(tier, seed, replay=None):
                 signal.alarm(0); signal.signal(signal.SIGALRM, old_h)
             dist["exact guess " + lname] = dist.get("exact guess " + lname, 0) + 1
     for i in range(n):
-        A, b, N, kind = gen_system(rng, torch, torchtt)
+        A, b, N, kind = gen_system(rng, torch, torchtt, N={10: [5, 4], 14: [6, 7, 5]}.get(i))          # (cases 10, 14: small modes, every local problem is solved directly)
         eps = rng.choice([1e-10, 1e-8, 1e-6, 1e-4, 1e-3])
         prec = rng.choice([None, None, "c", "r"])
         max_full = rng.choice([0, 500])
@@ -269,7 +271,7 @@ def run(tier, seed, replay=None):
         band = None
         if kind == "laplace" and max_full == 0 and (rng.random() < 0.6 or i % 7 == 3):      # the documented band_diagonal option (the cores of this family are tridiagonal)
             band = rng.choice([1, 2])
-        zero_sum = rng.random() < 0.15 or i in (2, 6)
+        zero_sum = rng.random() < 0.15 or i in (2, 6, 10, 14)
         if zero_sum:                          # a right-hand side whose last core sums to zero along its mode: the projection on the default (all-ones) guess vanishes exactly
             cs_ = [c.clone() for c in b.cores]; cs_[-1] = torch.zeros_like(cs_[-1])
             for p_ in range(cs_[-1].shape[0]): cs_[-1][p_, 0, 0] = float(p_ + 1); cs_[-1][p_, 1, 0] = -float(p_ + 1)
@@ -277,6 +279,8 @@ def run(tier, seed, replay=None):
         gk = rng.choice(["none", "none", "none", "random", "random", "zeros", "0*b", "b", "random*1e6", "random*1e-9", "zero-core", "loose-solution", "loose-solution"])
         if i in (2, 6):                       # engineered: zero-sum right-hand side, default start, iterative local solves (the local right-hand side of the first core vanishes: tolerance 0)
             gk = "none"; max_full = 0; local = "bicgstab" if i == 2 else "gmres"; prec = None; band = None
+        if i in (10, 14):                     # ... and with the direct local solve (an interface of the right-hand side vanishes exactly: its norm must not be divided by), without / with preconditioner
+            gk = "none"; max_full = 500; local = None; prec = None if i == 10 else "c"; band = None
         guess = None
         if gk != "none":
             guess = solverkit.rand_tt_float(rng, N, solverkit.ranks(rng, len(N), 3), torch.float64)
